@@ -19,7 +19,7 @@ C18_INVARIANTS = {"InvS_Range": "decoded stereo predictors leave the range the s
                   "InvL_Tables": "LTP codebook / scale tables leave their format (Q7 in 8 bits, Q14 in 16 bits, proper inverse CDFs, attenuating scales) or the max-gain arithmetic leaves 32 bits"}
 
 OBS = dict(wc=0, wc_claim=0, wc_voiced=0, wc_width=0, wc_midonly=0, wc_lost=0, wc_mono=0, wc_hybrid=0, wc_multiframe=0, wc_first_stereo_after_mono=0,
-           wc_ltpscale_nonzero=0, wc_reduced_width=0, enc_sum_log_gain_max_Q7=0, ms_wrap=0, lq_per=[0, 0, 0], lq_clamped=0)
+           wc_ltpscale_nonzero=0, wc_reduced_width=0, enc_sum_log_gain_max_Q7=0, ms_wrap=0, lr=0, lr_midonly=0, lr_reduced_width=0, lr_wrap=0, lq_per=[0, 0, 0], lq_clamped=0)
 
 
 def _tables(ctx, exe):
@@ -36,7 +36,7 @@ def _tables(ctx, exe):
     return tab, t
 
 
-_CUT = {"sd": ',"p":[', "sq": ',"ix":[', "ms": ',"fs":', "dp": ',"B":[', "lq": ',"fs":', "l2": ',"yh":', "ln": ',"y":', "wc": ',"len":'}
+_CUT = {"sd": ',"p":[', "sq": ',"ix":[', "ms": ',"fs":', "lr": ',"fs":', "dp": ',"B":[', "lq": ',"fs":', "l2": ',"yh":', "ln": ',"y":', "wc": ',"len":'}
 
 
 def _input_key(ln):
@@ -69,6 +69,12 @@ def _scan(ctx, ln, h):
             ctx.nontrivial.add(h)
         if any(abs(e["pr"][i] - e["pp"][i]) > 32767 for i in (0, 1)):
             OBS["ms_wrap"] += 1
+    elif k == "lr":
+        ctx.nontrivial.add(h)
+        OBS["lr"] += 1
+        OBS["lr_midonly"] += e["mo"]
+        OBS["lr_reduced_width"] += 1 if e["nw"] not in (0, 16384) else 0
+        OBS["lr_wrap"] += 1 if any(abs(e["npp"][i] - e["pp"][i]) > 32767 for i in (0, 1)) else 0
     elif k == "lq":
         OBS["lq_per"][e["per"] if 0 <= e["per"] <= 2 else 0] += 1
         OBS["lq_clamped"] += 1 if e["si"] > 5333 else 0
@@ -206,11 +212,11 @@ def run(ctx):
                 "log2lin inside 32 bits and monotone, lin2log(log2lin) within 3, max_gain arithmetic, cumulative gain <= 250 dB (+4/128) under the hard policy; "
                 "three witness theorems must be refuted). implementation: hx_silkside2 records silk_stereo_encode_pred -> bytes -> silk_stereo_decode_pred "
                 "(whole domain), silk_stereo_quant_pred (grid, level neighbourhoods, boundaries, random) + decode of its indices, silk_stereo_MS_to_LR on "
-                "impulse/step/random/saturating input from arbitrary 16-bit states, silk_decode_parameters with every LTP vector, silk_find_LTP_FLP + "
+                "impulse/step/random/saturating input from arbitrary 16-bit states, the encoder's silk_stereo_LR_to_MS on panned/uncorrelated/out-of-phase/saturating input from random states, silk_decode_parameters with every LTP vector, silk_find_LTP_FLP + "
                 "silk_quant_LTP_gains_FLP + silk_quant_LTP_gains (+ decode of the indices), silk_log2lin/silk_lin2log sweeps, and whole-codec stereo SILK-only / "
                 "hybrid streams (8-48 kHz API rate, NB..FB, 10-60 ms, 12-64 kb/s, CBR/VBR, FEC, forced channel switches, losses) reading encoder sStereo / indices "
                 "and decoder sStereo / indices / re-derived LTPCoef_Q14 through start-up-checked struct mirrors; every event judged by SilkSide2Trace!CaseOK (C18 clauses) "
-                "and !ModelOK (behaviour, SPEC-DRIFT). non-trivial = distinct inputs of sd/sq/lq events, voiced dp events, ms events with signal, wc packets for which the claim applies")
+                "and !ModelOK (behaviour, SPEC-DRIFT). non-trivial = distinct inputs of sd/sq/lq/lr events, voiced dp events, ms events with signal, wc packets for which the claim applies")
     ctx.assumptions = ["TLC and the CommunityModules Json reader are trusted",
                        "the table words the model computes with are exported from the built library at check time and compared word for word with the RFC 6716 values "
                        "kept in spec/SilkSide2.tla (typed once from the pinned tree)",
@@ -232,11 +238,12 @@ def run(ctx):
     # ---- 2. bind to the implementation ---------------------------------------------------------
     s = ctx.seed
     if q:
-        jobs = [("sd", []), ("sq", [s + 1, 3000]), ("ms", [s + 2, 90]), ("ms", [s + 12, 90]), ("dp", [s + 3, 400]), ("lq", [s + 4, 800]), ("ll", [])]
+        jobs = [("sd", []), ("sq", [s + 1, 3000]), ("ms", [s + 2, 90]), ("ms", [s + 12, 90]), ("lr", [s + 5, 300]), ("dp", [s + 3, 400]), ("lq", [s + 4, 800]), ("ll", [])]
         jobs += [("codec", [s + 20 + i, 14, 50]) for i in range(5)]
     else:
         jobs = [("sd", []), ("sq", [s + 1, 60000]), ("dp", [s + 3, 6000]), ("lq", [s + 4, 8000]), ("lq", [s + 14, 8000]), ("ll", [])]
         jobs += [("ms", [s + 2 + 100 * i, 400]) for i in range(6)]
+        jobs += [("lr", [s + 5 + 100 * i, 1500]) for i in range(4)]
         jobs += [("codec", [s + 20 + i, 40, 100]) for i in range(12)]
 
     def gen(job):
@@ -281,7 +288,8 @@ def run(ctx):
             raise vf.Infra("stereo index domain not enumerated: %d of 5625 events" % per_kind.get("sd", 0))
         need = dict(wc_claim=300 if q else 8000, wc_voiced=60 if q else 1500, wc_width=100 if q else 2500, wc_midonly=10 if q else 200, wc_lost=10 if q else 200,
                     wc_mono=10 if q else 200, wc_hybrid=20 if q else 500, wc_multiframe=30 if q else 800, wc_first_stereo_after_mono=2 if q else 30, ms_wrap=2 if q else 30,
-                    wc_ltpscale_nonzero=3 if q else 100, wc_reduced_width=3 if q else 100)
+                    wc_ltpscale_nonzero=3 if q else 100, wc_reduced_width=3 if q else 100,
+                    lr=250 if q else 5000, lr_midonly=5 if q else 100, lr_reduced_width=50 if q else 1000)
         low = {k: (OBS[k], v) for k, v in need.items() if OBS[k] < v}
         if n_err or low:
             raise vf.Infra("whole-codec / synthesis drivers did not reach what the check claims to cover (vacuity guard): errors=%d, below minimum (seen, needed): %s" % (n_err, low))
@@ -308,7 +316,7 @@ def run(ctx):
                       "range; the encoder's quantised value is what the decoder reconstructs): %s" % fresh[:900], replay_src=src)
 
     # ---- 3. behaviour beyond the property's clauses: SPEC-DRIFT only -----------------------------
-    dr = [ln for ln in lines if ln[6:8] in ("sq", "ms", "lq", "l2", "ln", "wc") and not ln.startswith('{"k":"wc_err"')]
+    dr = [ln for ln in lines if ln[6:8] in ("sq", "ms", "lr", "lq", "l2", "ln", "wc") and not ln.startswith('{"k":"wc_err"')]
     drp = ctx.path("drift.ndjson")
     with open(drp, "w") as f:
         f.write("\n".join(dr) + "\n")
@@ -322,6 +330,7 @@ def run(ctx):
         shown.add(k)
         what = {"sq": "silk_stereo_quant_pred does not choose the indices of the model's search (StereoQuantPred)",
                 "ms": "silk_stereo_MS_to_LR output / state differs from the model (interpolation, history, synthesis arithmetic)",
+                "lr": "silk_stereo_LR_to_MS (encoder): mid / residual side samples, history or the width / mid-only bookkeeping differ from the model (LrToMs)",
                 "lq": "silk_quant_LTP_gains: cumulative sum_log_gain_Q7 / prediction gain differ from the model's chain (SumChain) or from the float wrapper",
                 "l2": "silk_log2lin differs from the model", "ln": "silk_lin2log differs from the model",
                 "wc": "whole codec: decoder state rules on loss / mono packets or the encoder's stereo-width bookkeeping differ from the model (WcModel)"}.get(k, "event")
@@ -398,9 +407,9 @@ META = dict(
                 "through the real range coder, the real quantiser + decoder, every LTP vector through silk_decode_parameters, the LTP quantiser's output vs the decoder's "
                 "reconstruction (integer function and float wrapper), and per whole-codec packet: decoder pred_prev_Q13 = dequantiser(encoder predIx of the last frame), "
                 "encoder pred_prev_Q13 = decoder's whenever a side signal is coded, mid-only flag, PER/LTP/scale indices and re-derived LTPCoef_Q14 / LTP_scale_Q14 on both "
-                "channels (C18 clauses: VIOLATION). silk_stereo_MS_to_LR samples and state, silk_log2lin / silk_lin2log, the cumulative-gain chain, the encoder's chosen "
+                "channels; silk_stereo_LR_to_MS leaves codable indices and goes on with exactly the dequantised predictors (or zero at zero width) (C18 clauses: VIOLATION). silk_stereo_MS_to_LR samples and state, the encoder's mid / residual-side samples with the cross-faded width (second half of silk_stereo_LR_to_MS), its width / mid-only / silent-side bookkeeping, silk_log2lin / silk_lin2log, the cumulative-gain chain, the encoder's chosen "
                 "indices and the decoder's state rules on loss / mono packets are bound by exact equality at SPEC-DRIFT level."),
-    level_note=("Growth module. Not modelled: silk_stereo_find_predictor and the width / rate heuristics of silk_stereo_LR_to_MS beyond range facts (encoder free), "
+    level_note=("Growth module. Not modelled: silk_stereo_find_predictor and the width / rate heuristics of silk_stereo_LR_to_MS (which predictors, which width: encoder free; the model takes the state the call leaves behind as given and checks the integer rules that connect it), "
                 "silk_VQ_WMat_EC's search (which vector), the LTP scale decision of silk_LTP_scale_ctrl, the side-channel reset inside silk_Decode when "
                 "prev_decode_only_middle (not observable after the packet). The cumulative-gain bound is a theorem about the hard-constraint reading only. "
                 "Trusted: TLC, Json module, the RFC table copy typed from the pinned tree."),
